@@ -371,6 +371,25 @@ fn holder_claim_probe(a: &mut Vec<i128>) -> String {
 	res
 }
 
+/// claim_deadline_probe <n> (<cltv_expiry> <value_msat>)*n
+/// The parts of one multi-part payment, in this order, through the real `handle_claimable_htlc` of a live
+/// ChannelManager. Output: `1 <amount_msat> <claim_deadline>` from the PaymentClaimable event, or `0 0 0`.
+fn claim_deadline_probe(a: &mut Vec<i128>) -> String {
+	let n = a[0] as usize;
+	let parts: Vec<(u32, u64)> = (0..n).map(|i| (a[1 + 2 * i] as u32, a[2 + 2 * i] as u64)).collect();
+	let chanmon_cfgs = create_chanmon_cfgs(1);
+	let node_cfgs = create_node_cfgs(1, &chanmon_cfgs);
+	let node_chanmgrs = create_node_chanmgrs(1, &node_cfgs, &[None]);
+	let nodes = create_network(1, &node_cfgs, &node_chanmgrs);
+	let r = lightning::ln::channelmanager::verif_hooks::claim_deadline_probe(nodes[0].node, &parts);
+	core::mem::forget(nodes);
+	match r {
+		Some((amt, Some(d))) => format!("1 {} {}", amt, d),
+		Some((amt, None)) => format!("2 {} 0", amt),
+		None => "0 0 0".to_string(),
+	}
+}
+
 fn main() {
 	if std::env::var("ORACLE_DEBUG").is_err() { std::panic::set_hook(Box::new(|_| {})); }
 	let stdin = std::io::stdin();
@@ -393,6 +412,7 @@ fn main() {
 			"revoked_htlc_claim_probe" => revoked_htlc_claim_probe(&mut args),
 			"counterparty_claim_probe" => counterparty_claim_probe(&mut args),
 			"holder_claim_probe" => holder_claim_probe(&mut args),
+			"claim_deadline_probe" => claim_deadline_probe(&mut args),
 			_ => format!("error unknown function {}", name),
 		}));
 		match r {
